@@ -82,7 +82,7 @@ CAUGHT = {
  'C09r3-m1': ('./check C09', 'not-returned-after-close in the mixed shm + heap fallback configuration, first run (./check C06 reports SPEC-DRIFT of module LinkedBuffer: free count 39 vs 40)'),
  'C11r3-m1': ('./check C11', 'blocked-forever: must-send-timeout-waiting-result / -waiting-room (waitForSend still blocked 10 s after ConnectionWriteTimeout), first run'),
  'C14r3-m1': ('./check C14', 'severed-connection pass (round 3, added after this seed escaped; ./check C18 had reported SPEC-DRIFT of EventConnDispatch only): survivor-not-closed when the peer dies with unread bytes in its socket (ECONNRESET)'),
- 'C19r3-m1': ('./check C06', 'bytes: fallback payload aliases the connection read buffer (same site as C06r2-m2, also C07/C13); ./check C19 itself does not put a conn on the socket-fallback path'),
+ 'C19r3-m1': ('./check C19', 'fallback-conn pass (round 3, added after ./check C19 had missed this seed; ./check C06 caught it at first run): bytes - stream position 0 of the first of two unread fallback Writes reads the second one'),
  'C19-m1': ('./check C19', 'late-stream probe (added after this seed escaped)'),
  'C19-m2': ('./check C07', 'order across transports; C19 itself does not stage the fallback/refill interleaving'),
  'C20-m1': ('./check C20', 'stranded (fine-grained random interleavings, added after this seed escaped)'),
